@@ -294,6 +294,24 @@ def step (w : World) (j : Json) : World × List String :=
     match credential env w.now n (jStr j "issuer") (jNat j "page") with
     | .ok (vc, n') => (w.set node n', ["serve " ++ describeVC w.now vc])
     | r => (w, ["serve " ++ resErr r])
+  | "serverace" =>
+    -- the harness lets a Revoke() commit inside Credential(), after its reads and before its transaction. That point is
+    -- only reached when Credential() re-issues; an equivalent serial order is: the Revoke transaction, then Credential.
+    let issuer := jStr j "issuer"
+    let page := jNat j "page"
+    let u := n.url issuer page
+    let reissue := n.isManaged u && (match n.cred? u with
+      | some r => (match r.expires with | some e => !(w.now + env.minLeft < e) | none => true)
+      | none => true)
+    let (n1, rv) :=
+      if reissue then
+        match revoke env w.now n ("did:web:example.com#" ++ jStr j "idx") { list := u, idx := atoi (jStr j "idx") } with
+        | .ok n' => (n', "ok")
+        | res => (n, resErr res)
+      else (n, "none")
+    match credential env w.now n1 issuer page with
+    | .ok (vc, n') => (w.set node n', [s!"serverace revoke={rv} " ++ describeVC w.now vc])
+    | r => (w.set node n1, [s!"serverace revoke={rv} " ++ resErr r])
   | "record" =>
     match n.cred? (parseUrl (jObj j "list")) with
     | none => (w, ["record none"])
